@@ -1,2 +1,99 @@
--- driver stub for C05 (replaced when the model is built)
-def main : IO Unit := pure ()
+import PyramidModel.Prelude
+import PyramidModel.Security
+/-! Driver for C05: one JSON case per line.
+in : {"pre":[view…], "stmts":[stmt…], "deny":[[ctx,perm],…], "excsro":[[kind,[cls,…]],…],
+      "req":{"ctx","sro","ifaces","excifaces","wrapifaces","name","preds"}, "probe":{"kind":"router"|"render"|"vep","secure":b}}
+     stmt = {"k":"policy","legacy":b} | {"k":"defperm","perm":P} | {"k":"view","dir":n, …view} | {"k":"other","phase":n}
+     view = {"tag","name","route","cls","isexc","exconly","perm":P,"order","preds","wrapper":null|n,"act"}
+     P = null | "npr" | n
+out: {"trace":[["p",ctx,perm,ans] | ["b",tag,ctx] | ["x",kind]], "out":["resp",tag]|["none"]|["raised",k]|["perm",b]|["mismatch"],
+      "guards":[[tag,exc,guard|null],…], "exec":[phase…], "chain":[names]} -/
+open Pyr Pyr.Security Lean
+
+def parsePerm (j : Json) : Except String PermArg :=
+  match j with
+  | .null => pure .absent
+  | .str "npr" => pure .npr
+  | j => do
+    let n : Nat ← fromJson? j
+    pure (.name n)
+
+def parseView (j : Json) : Except String ViewStmt := do
+  let tag : Nat ← getAs j "tag"
+  let name : Nat ← getAs j "name"
+  let route : Nat ← getAs j "route"
+  let cls : Nat ← getAs j "cls"
+  let isexc : Bool ← getAs j "isexc"
+  let exconly : Bool ← getAs j "exconly"
+  let perm ← parsePerm (← getField j "perm")
+  let order : Nat ← getAs j "order"
+  let preds : List Nat ← getAs j "preds"
+  let wj ← getField j "wrapper"
+  let wrapper : Option Nat ← match wj with
+    | .null => pure none
+    | x => do let n : Nat ← fromJson? x; pure (some n)
+  let act : Nat ← getAs j "act"
+  pure { tag, name, route, ctxClass := cls, isExcCtx := isexc, excOnly := exconly, perm, order, preds, wrapper, act }
+
+def parseStmt (j : Json) : Except String Stmt := do
+  let k : String ← getAs j "k"
+  match k with
+  | "policy" => do
+    let legacy : Bool ← getAs j "legacy"
+    pure (.setPolicy legacy)
+  | "defperm" => do
+    let p ← parsePerm (← getField j "perm")
+    pure (.setDefault p)
+  | "view" => do
+    let dir : Nat ← getAs j "dir"
+    let v ← parseView j
+    pure (.addView dir v)
+  | "other" => do
+    let ph : Int ← getAs j "phase"
+    pure (.other ph)
+  | _ => throw "bad stmt"
+
+def evJson : Event → Json
+  | .permits c p a => toJson [toJson "p", toJson c, toJson p, toJson a]
+  | .body t _ c _ => toJson [toJson "b", toJson t, toJson c]
+  | .mainRaised k => toJson [toJson "x", toJson k]
+
+def outJson : Outcome → Json
+  | .resp t => toJson [toJson "resp", toJson t]
+  | .none => toJson [toJson "none"]
+  | .mismatch => toJson [toJson "mismatch"]
+  | .raised k => toJson [toJson "raised", toJson k]
+  | .perm b => toJson [toJson "perm", toJson b]
+
+def main : IO Unit := jsonDriver fun j => do
+  let prej : List Json ← getAs j "pre"
+  let pre ← prej.mapM parseView
+  let stj : List Json ← getAs j "stmts"
+  let stmts ← stj.mapM parseStmt
+  let deny : List (List Nat) ← getAs j "deny"
+  let exs : List (Nat × List Nat) ← getAs j "excsro"
+  let rq ← getField j "req"
+  let q : Req := { ctx := ← getAs rq "ctx", sro := ← getAs rq "sro", ifaces := ← getAs rq "ifaces",
+                   excIfaces := ← getAs rq "excifaces", wrapIfaces := ← getAs rq "wrapifaces",
+                   name := ← getAs rq "name", preds := ← getAs rq "preds" }
+  let pb ← getField j "probe"
+  let kind : String ← getAs pb "kind"
+  let w : World := { pol := fun c p => !(deny.contains [c, p]),
+                     excSro := fun k => (exs.lookup k).getD [] }
+  -- the framework's own exception-response view is committed before the user's scope (setup_registry)
+  let r0 := configure {} (pre.map fun v => Stmt.addView 0 v)
+  let reg := configure r0 stmts
+  let res ← match kind with
+    | "router" => pure (handle chain reg.views w q)
+    | "render" => do
+      let secure : Bool ← getAs pb "secure"
+      pure (render chain reg.views w q secure)
+    | "vep" => pure (vep reg.views w q)
+    | _ => throw "bad probe"
+  return Json.mkObj [
+    ("trace", toJson (res.1.map evJson)),
+    ("out", outJson res.2),
+    ("guards", toJson (reg.views.map fun d => toJson [toJson d.tag, toJson d.exc, toJson d.guard])),
+    ("exec", toJson ((execOrder stmts).map (·.phase))),
+    ("policy", toJson reg.policy),
+    ("chain", toJson chainNames)]
